@@ -269,6 +269,50 @@ def make_kernel(kind, keys, step):
     raise ValueError(kind)
 
 
+def starts_from_incoming_state(plan, iface, state0, real, block_keys, sk, V, counters):
+    """"Each kernel starts from the model state left by its predecessor": a built-in kernel's
+    transition may depend on its own past only through its tuning parameters. The kernel makes one
+    transition of its own, a predecessor then moves the *other* blocks, and the next transition is
+    made twice with the same key and the same incoming model state — once with the kernel state
+    carried over (what the engine does), once with a kernel state initialised afresh at the incoming
+    state. With equal tuning parameters the two outcomes must coincide."""
+    from liesel.goose.epoch import EpochState
+
+    ep = EpochState(EpochConfig(EpochType.POSTERIOR, 10, 1, None), 1, 3, 1, 2)
+    move = {"beta": jnp.asarray([0.35, -0.45], jnp.float32), sk: jnp.float32(0.45), "z": jnp.float32(0.6)}
+    k0, k1, k2 = jax.random.split(jax.random.PRNGKey(plan["seed"] % 2**31), 3)
+    for b, ker in real:
+        kind = plan["kern"].get(b)
+        if b not in ("beta", "scale", "z") or kind not in ("rw", "mh", "iwls", "hmc", "nuts"):
+            continue
+        own = block_keys[b]
+        try:
+            ks0 = ker.init_state(k0, state0)
+            o1 = ker.transition(k1, ks0, state0, ep)
+            s_in = iface.update_state({k: v for k, v in move.items() if k not in own}, o1.model_state)
+            fresh = ker.init_state(k0, s_in)
+            o2 = ker.transition(k2, o1.kernel_state, s_in, ep)
+            o2f = ker.transition(k2, fresh, s_in, ep)
+        except Exception as e:
+            raise SutError(f"kernel-transition|{type(e).__name__}|{kind}|{e}") from e
+        tuned_equal = all(np.array_equal(np.asarray(getattr(o1.kernel_state, f)), np.asarray(getattr(fresh, f)))
+                          for f in ("step_size", "inverse_mass_matrix") if hasattr(fresh, f))
+        if not tuned_equal:
+            counters["probe.memoryless_skipped_tuning_differs"] = counters.get("probe.memoryless_skipped_tuning_differs", 0) + 1
+            continue
+        counters["probe.carried_vs_fresh_kernel_state"] = counters.get("probe.carried_vs_fresh_kernel_state", 0) + 1
+        pa, pb = iface.extract_position(own, o2.model_state), iface.extract_position(own, o2f.model_state)
+        qa = {"acceptance_prob": o2.info.acceptance_prob, "position_moved": o2.info.position_moved, **pa}
+        qb = {"acceptance_prob": o2f.info.acceptance_prob, "position_moved": o2f.info.position_moved, **pb}
+        for q in qa:
+            a_, b_ = np.asarray(qa[q], F64), np.asarray(qb[q], F64)
+            if not np.allclose(a_, b_, rtol=1e-5, atol=1e-6, equal_nan=True):
+                V.add("state-left-by-predecessor", f"{kind}/carried-kernel-state",
+                      f"{kind} kernel for {own}: after its own transition the other blocks were moved; the next transition (same key, same incoming model state, "
+                      f"same step size / mass matrix) gives {q} = {a_.tolist()} with the carried-over kernel state but {b_.tolist()} with a kernel state initialised at the incoming state")
+                break
+
+
 def execute(plan: dict) -> dict:
     V = Violations("C09")
     log = EventLog()
@@ -422,6 +466,8 @@ def execute(plan: dict) -> dict:
                     V.add("coherence", "tracked-log-prob", f"chain {c} iteration {t}: tracked _model_log_prob {lp_tracked} vs interface log_prob {seen[-1]['__log_prob'][c, t]}")
         if V.items:
             break
+    if not V.items:
+        starts_from_incoming_state(plan, iface, state0, real, block_keys, sk, V, counters)
     if plan["gibbs_pair"]:
         counters["probe.order_sensitive_pair"] = 1
     counters["states_checked"] = n_states
